@@ -152,6 +152,13 @@ func (w *Walker) Walk(
 
 	select {
 	case <-done:
+		// All routines are done, but they may have ended because the walk was cancelled
+		// (e.g. by an interrupt) and left their targets uncompleted. Both channels are
+		// ready in that case and select picks one at random, so the cancellation has to
+		// be reported here as well or an interrupted build would look successful.
+		if ctx.Err() != nil && !w.failFastTriggered {
+			return w.completions, ctx.Err()
+		}
 		return w.completions, nil
 	case <-ctx.Done():
 		logger.Debugf(
